@@ -461,7 +461,9 @@ func (env *Env) run(c *Case) *Result {
 		var node *gtree.Node
 		var nodes []*gtree.Node
 		if c.Entry != "md" {
-			if c.Root != nil {
+			if c.ZeroNode {
+				node = new(gtree.Node) // a node made by neither NewRoot nor Add
+			} else if c.Root != nil {
 				nodes = BuildRoot(*c.Root, c.Prog)
 				node = nodes[0]
 				cbRoot = nodes[0]
